@@ -3,6 +3,7 @@ CFG = {
   'ready': True,
   'gens': ['gen_secrets.py', 'gen_htlc_tables.py'],
   'props_module': 'LdkModel.Props.C05',
+  'extra_props_modules': ['LdkModel.Props.ChanProto'],
   'models': ['c05', 'chan', 'mongate'],
   'model_bins': {'chan': 'chan', 'mongate': 'chan'},
   'model_drivers': {'chan': 'drv_chan', 'mongate': 'drv_chan'},
